@@ -4,9 +4,10 @@ import json, os, shutil, sys, glob
 pid, n, needs = sys.argv[1], sys.argv[2], sys.argv[3]
 # second-round seeds live in /tmp/seed-out/<ID>r2 and are adopted as <ID>-3 and <ID>-4
 round2 = pid.endswith("r2")
+round3 = pid.endswith("r3")   # third round: one change per property, adopted as <ID>-5
 prop = pid[:3]
 src = f"/tmp/seed-out/{pid}"
-dst = f"/verif/seeded/{prop}-{int(n) + 2}" if round2 else f"/verif/seeded/{pid}-{n}"
+dst = f"/verif/seeded/{prop}-{int(n) + 2}" if round2 else f"/verif/seeded/{prop}-{int(n) + 4}" if round3 else f"/verif/seeded/{pid}-{n}"
 os.makedirs(dst, exist_ok=True)
 ver = open(f"{src}/verify{n}.txt").read().strip()
 assert "382 passed 0 failed" in ver and "with change: 0;" not in ver and "without: 0" in ver, ver
